@@ -45,6 +45,7 @@ def spec_universe(tier):
     specs = []
     specs += tg.constrained_specs()
     specs += tg.lax_specs()
+    specs += tg.mixed_specs(routes=("cls", "ann") if tier == "thorough" else ("cls",))
     specs += tg.literal_specs()
     specs += tg.SHIPPED
     specs += tg.generic_specs(depth=2 if tier == "thorough" else 1,
